@@ -291,7 +291,10 @@ def run_kani(ws, fq_harnesses, timeout_s, jobs, log_path, extra_args=()):
     Per-harness results are written by Kani into <target>/result_output_dir/<fq name>.
     Returns (rc, stdout_text, result_dir).
     """
-    target = TARGET_DIR
+    # one target dir per workspace tag: Kani writes per-harness results to
+    # <target>/result_output_dir/<harness>, which concurrent runs of the same harness names
+    # (a seeded copy next to the unchanged tree) would overwrite
+    target = os.path.join(TARGET_DIR, os.path.basename(ws.dir))
     result_dir = os.path.join(target, "result_output_dir")
     for h in fq_harnesses:
         try:
@@ -335,7 +338,7 @@ def playback(ws, unit, fq_harness, check_ids, timeout_s, log_dir):
     Returns dict(reproduced: bool|None, test_src, native_output, inputs).
     """
     log1 = os.path.join(log_dir, "playback-gen.log")
-    target = TARGET_DIR
+    target = os.path.join(TARGET_DIR, os.path.basename(ws.dir))
     cmd = [
         "cargo", "kani", "-p", ws.package,
         "-Z", "stubbing", "-Z", "function-contracts", "-Z", "unstable-options", "-Z", "concrete-playback",
